@@ -86,6 +86,21 @@ mod verif_replay_m {
             let c = m.clone();
             if !Arc::ptr_eq(&*m, &*c) { println!("M|clone-shares|{l:?}|clone copied the value"); }
         }
+        // history: many failed reads followed by a good one (state kept across calls must not change the result), in one thread
+        let good = yaserde::ser::to_string(&OuterBare { leaf: leaves()[1].clone(), n: 3 }).unwrap();
+        let bad = good.replace("</p:leaf>", "</p:oops>");
+        for round in 0..200 {
+            n += 1;
+            let _: Result<OuterWrapped, String> = yaserde::de::from_str(&bad);
+            let _: Result<OuterBare, String> = yaserde::de::from_str(&bad);
+            let db: Result<OuterBare, String> = yaserde::de::from_str(&good);
+            let dw: Result<OuterWrapped, String> = yaserde::de::from_str(&good);
+            match (&db, &dw) {
+                (Ok(a), Ok(b)) => if a.leaf != **b.leaf || a.n != b.n { println!("M|field-deserialize|after {round} failed reads|differs"); break; },
+                (Err(_), Err(_)) => {}
+                _ => { println!("M|field-deserialize|after {round} failed reads|one side failed: bare ok={} wrapped ok={}", db.is_ok(), dw.is_ok()); break; }
+            }
+        }
         println!("M|done|{n}|");
     }
 }
